@@ -59,3 +59,26 @@ func debugLockInfer(repo string) {
 	}
 	fmt.Fprintf(os.Stderr, "accesses=%d lockops=%d fns=%d fresh=%d findings=%d\n", e.accesses, e.lockOps, e.fnAnalysed, e.freshExempt, len(fs))
 }
+
+func debugPanics(repo string) {
+	w := loadWorld(repo, false)
+	n := 0
+	for _, fn := range w.Funcs {
+		if isTestFile(w, fn) {
+			continue
+		}
+		p := w.RelPkg(fn)
+		if p != "core" && p != "sys" && p != "service" && p != "cron" {
+			continue
+		}
+		var sites []panicSite
+		sites = append(sites, uncheckedAsserts(fn)...)
+		sites = append(sites, explicitPanics(fn)...)
+		sites = append(sites, constIndexSites(fn)...)
+		for _, s := range sites {
+			n++
+			fmt.Printf("%-7s %-45s %s %s\n", s.Kind, fname(fn), w.PosOf(s.In), s.Desc)
+		}
+	}
+	fmt.Println("total", n)
+}
